@@ -61,9 +61,25 @@ def totality_job(ctx):
     return ctx.harness("c08", ["--vectors", s["out"], "--totality"], name="c09_http1")
 
 
+def down_job(ctx):
+    """Http1Down.tla: the download path under client back-pressure, dropped listen() futures and graceful shutdown;
+    exhaustive check, then every printed behaviour replayed on the real codec (also a job of C19: HTTP/1.1 flush and close)."""
+    ctx.build("c08")
+    mc = ctx.tlc("MCHttp1Down", "MCHttp1Down.cfg", workers=4, timeout=600,
+                 require_actions=("Take", "WriteSome", "GsTake", "GsClose", "SinkWrite", "Open", "Cancel", "Relisten", "Shutdown"))
+    ctx.spec_must_hold(mc)
+    gen = ctx.tlc("MCHttp1Down", "MCHttp1Down.gen.cfg", name="MCHttp1Down.gen", workers=4, timeout=600, coverage=False)
+    ctx.spec_must_hold(gen)
+    r = ctx.harness("c08", ["--down", gen["out"]], name="c08.down")
+    if r["evaluations"] < 1000 and not ctx.violations:
+        raise ToolError("download-path job replayed only %d behaviours" % r["evaluations"])
+    return {"download_model_states": mc["distinct"], "download_behaviours_replayed": r["evaluations"]}
+
+
 def run(ctx):
     ctx.build("c08")
     states, trans = model_jobs(ctx)
+    dj = down_job(ctx)
     # (no -coverage here: it triples the time of a run that prints every behaviour; that every
     # kind of environment event occurs in the generated behaviours is checked on the harness's counters)
     gen = ctx.tlc("MCHttp1", "MCHttp1.thorough.cfg" if ctx.thorough else "MCHttp1.quick.cfg", workers=8, timeout=2400, coverage=False)
@@ -82,8 +98,9 @@ def run(ctx):
         os.remove(gen["out"])
     return ctx.finish("model_checking", {
         "states": states, "transitions": trans,
-        "traces_validated_against_impl": beh,
+        "traces_validated_against_impl": beh + dj["download_behaviours_replayed"],
         "replayed_behaviours": beh,
+        "download_path": dj,
         "event_sequences": r["counters"].get("tlc_event_sequences", 0),
         "byte_position_segmentations": r["counters"].get("byte_position_segmentations", 0),
         "evaluations": r["evaluations"], "distinct_nontrivial": r["distinct_nontrivial"],
